@@ -97,14 +97,14 @@ class Run:
         self.sh(["go", "build", "-tags", TAG, "-o", out, "./cmd/swagger"], cwd=REPO)
         return out
 
-    def scratch_module(self, name="gen"):
+    def scratch_module(self, name="gen", modname=None):
         """A Go module outside /repo and /verif in which generated code compiles: go.mod carries
         /repo's require block, go.sum copied."""
         d = self.path(name, "go.mod")
         d = os.path.dirname(d)
         src = open(os.path.join(REPO, "go.mod")).read()
         reqs = re.findall(r"require \((.*?)\)", src, re.S)
-        gm = "module scratch/%s\n\ngo 1.21\n\n" % name
+        gm = "module %s\n\ngo 1.21\n\n" % (modname or ("scratch/" + name))
         for r in reqs:
             gm += "require (" + r + ")\n\n"
         open(os.path.join(d, "go.mod"), "w").write(gm)
